@@ -140,19 +140,20 @@ type c19Hooks struct {
 }
 
 type c19Interp struct {
-	m       *c19Model
-	info    *types.Info
-	hooks   c19Hooks
-	script  []bool
-	pos     int
-	events  []c19Event
-	notes   []string
-	depth   int
-	steps   int
-	nextID  int
-	noFork  int
-	nilness map[int]bool
-	globals map[types.Object]*c19Cell
+	m            *c19Model
+	info         *types.Info
+	hooks        c19Hooks
+	script       []bool
+	pos          int
+	events       []c19Event
+	notes        []string
+	depth        int
+	steps        int
+	nextID       int
+	noFork       int
+	singleAssert int // >0 while a single-value type assertion is evaluated
+	nilness      map[int]bool
+	globals      map[types.Object]*c19Cell
 }
 
 // c19Path is the outcome of one path through the evaluated function.
@@ -310,6 +311,8 @@ func c19Show(v c19Value) string {
 		return "func " + x.fn.Name()
 	case c19Slice:
 		return fmt.Sprintf("slice of %d", len(x.elems))
+	case c19Bytes:
+		return fmt.Sprintf("[]byte(%q)", x.b)
 	}
 	return fmt.Sprintf("%T", v)
 }
@@ -482,11 +485,30 @@ func (in *c19Interp) eval(e ast.Expr, env *c19Env) c19Value {
 				return v
 			}
 		}
+		// a byte of a concrete string or byte slice
+		str, isText := "", false
+		if bs, ok := base.(c19Bytes); ok {
+			str, isText = bs.b, true
+		} else if s, ok := c19AsString(base); ok {
+			str, isText = s, true
+		}
+		if i, ok := c19AsInt(idx); ok && isText {
+			if i < 0 || int(i) >= len(str) {
+				panic(c19Abort{why: "panic"})
+			}
+			return c19ByteConst(str[i])
+		}
 		return in.opaque(in.info.TypeOf(e), in.src(e))
 	case *ast.SliceExpr:
+		if v, ok := in.emptyPrefix(x, env); ok {
+			return v
+		}
 		return in.evalSlice(x, env)
 	case *ast.TypeAssertExpr:
+		// when the dynamic type is not known the single-value form relies on the assertion holding
+		in.singleAssert++
 		v, ok := in.typeAssert(x, env)
+		in.singleAssert--
 		if !ok {
 			panic(c19Abort{why: "panic"})
 		}
@@ -835,7 +857,7 @@ func (in *c19Interp) equal(l, r c19Value) c19Value {
 		switch x := r.(type) {
 		case c19Nil:
 			return c19Bool(true)
-		case c19Ptr, *c19Obj, c19Closure, c19FuncVal, c19Slice, c19MapVal, c19CellPtr, c19FieldPtr, c19Const, c19Time:
+		case c19Ptr, *c19Obj, c19Closure, c19FuncVal, c19Slice, c19MapVal, c19Bytes, c19CellPtr, c19FieldPtr, c19Const, c19Time:
 			return c19Bool(false)
 		case *c19Opaque:
 			if x.nonNil {
@@ -915,7 +937,7 @@ func (in *c19Interp) typeAssert(x *ast.TypeAssertExpr, env *c19Env) (c19Value, b
 	case triF:
 		return in.zero(T), false
 	}
-	if in.decide() {
+	if in.singleAssert > 0 || in.decide() {
 		o := in.opaque(T, in.src(x))
 		o.nonNil = true
 		return o, true
@@ -1214,6 +1236,17 @@ func (in *c19Interp) namedResults(env *c19Env) c19Value {
 }
 
 func (in *c19Interp) convert(v c19Value, T types.Type, call *ast.CallExpr) c19Value {
+	if s, ok := c19AsString(v); ok && c19IsByteSeq(T) {
+		return c19Bytes{s}
+	}
+	if bs, ok := v.(c19Bytes); ok {
+		if c19IsStringT(T) {
+			return c19Const{v: constant.MakeString(bs.b), typ: T}
+		}
+		if c19IsByteSeq(T) {
+			return bs
+		}
+	}
 	switch x := v.(type) {
 	case c19Const:
 		tb, _ := T.Underlying().(*types.Basic)
@@ -1267,6 +1300,10 @@ func (in *c19Interp) evalBuiltin(name string, call *ast.CallExpr, env *c19Env) c
 			return c19Const{v: constant.MakeInt64(0), typ: types.Typ[types.Int]}
 		case c19MapVal:
 			return c19Const{v: constant.MakeInt64(int64(len(*x.keys))), typ: types.Typ[types.Int]}
+		case c19Bytes:
+			if name == "len" {
+				return c19Const{v: constant.MakeInt64(int64(len(x.b))), typ: types.Typ[types.Int]}
+			}
 		case c19Const:
 			if s, ok := c19AsString(x); ok {
 				return c19Const{v: constant.MakeInt64(int64(len(s))), typ: types.Typ[types.Int]}
@@ -1274,10 +1311,31 @@ func (in *c19Interp) evalBuiltin(name string, call *ast.CallExpr, env *c19Env) c
 		}
 		return in.opaque(t, in.src(call))
 	case "append":
+		if len(call.Args) >= 1 && c19IsByteSeq(in.info.TypeOf(call.Args[0])) {
+			base := in.eval(call.Args[0], env)
+			if _, isNil := base.(c19Nil); isNil {
+				base = c19Bytes{}
+			}
+			if bs, ok := base.(c19Bytes); ok {
+				if v, ok := in.appendBytes(bs, call, env); ok {
+					return v
+				}
+			} else {
+				for _, a := range call.Args[1:] {
+					in.eval(a, env)
+				}
+			}
+			return in.opaque(t, in.src(call))
+		}
 		if len(call.Args) >= 1 && !call.Ellipsis.IsValid() {
 			base := in.eval(call.Args[0], env)
 			var elems []c19Value
 			switch b := base.(type) {
+			case c19Bytes:
+				if v, ok := in.appendBytes(b, call, env); ok {
+					return v
+				}
+				return in.opaque(t, in.src(call))
 			case c19Slice:
 				elems = append(elems, b.elems...)
 			case c19Nil:
@@ -1291,6 +1349,16 @@ func (in *c19Interp) evalBuiltin(name string, call *ast.CallExpr, env *c19Env) c
 				elems = append(elems, in.eval(a, env))
 			}
 			return c19Slice{elems: elems}
+		}
+	case "make":
+		// make([]byte, 0, n): an empty byte buffer to append to
+		if len(call.Args) >= 2 && c19IsByteSeq(in.info.TypeOf(call.Args[0])) {
+			if n, ok := c19AsInt(in.eval(call.Args[1], env)); ok && n == 0 {
+				for _, a := range call.Args[2:] {
+					in.eval(a, env)
+				}
+				return c19Bytes{}
+			}
 		}
 	case "new":
 		T := in.info.TypeOf(call.Args[0])
@@ -1334,6 +1402,11 @@ func (in *c19Interp) extern(fn *types.Func, recv c19Value, args []c19Value, call
 	sig := fn.Type().(*types.Signature)
 	name := c19FullName(fn)
 	where := name
+	if sig.Recv() != nil && c19BuilderObj(recv) != nil {
+		if v, ok := in.builder(fn.Name(), recv, args, sig); ok {
+			return v
+		}
+	}
 	switch name {
 	case "fmt.Sprintf":
 		if len(args) >= 1 {
@@ -1418,9 +1491,12 @@ func (in *c19Interp) extern(fn *types.Func, recv c19Value, args []c19Value, call
 		}
 	case "(*net/http.Request).WithContext", "(*net/http.Request).Clone":
 		return recv
-	case "(*strings.Builder).WriteString", "(*strings.Builder).WriteByte", "(*strings.Builder).WriteRune", "(*strings.Builder).String", "(*strings.Builder).Len", "(*strings.Builder).Reset",
-		"(*bytes.Buffer).WriteString", "(*bytes.Buffer).WriteByte", "(*bytes.Buffer).WriteRune", "(*bytes.Buffer).String", "(*bytes.Buffer).Len", "(*bytes.Buffer).Reset":
-		if v, ok := in.builder(fn.Name(), recv, args, sig); ok {
+	case "strconv.AppendUint", "strconv.AppendInt", "strconv.AppendQuote":
+		if v, ok := in.externBytes(name, args); ok {
+			return v
+		}
+	case "(*sync.Pool).Get":
+		if v, ok := in.poolGet(recv); ok {
 			return v
 		}
 	case "fmt.Fprintf":
@@ -1487,6 +1563,19 @@ func (in *c19Interp) builder(method string, recv c19Value, args []c19Value, sig 
 		} else {
 			b.sbBad = true
 		}
+	case "Write":
+		if p, ok := args[0].(c19Bytes); ok {
+			b.sb = append(b.sb, p.b)
+		} else {
+			b.sbBad = true
+		}
+	case "Grow", "Cap", "Available":
+		// capacity only
+	case "Bytes":
+		if b.sbBad {
+			return nil, false
+		}
+		return c19Bytes{strings.Join(b.sb, "")}, true
 	case "Reset":
 		b.sb, b.sbBad = nil, false
 		return nil, true
@@ -1500,8 +1589,10 @@ func (in *c19Interp) builder(method string, recv c19Value, args []c19Value, sig 
 			return nil, false
 		}
 		return c19Const{v: constant.MakeInt64(int64(len(strings.Join(b.sb, "")))), typ: types.Typ[types.Int]}, true
+	default:
+		b.sbBad = true // a method the model does not know may have written to the buffer
 	}
-	return in.opaqueResults(sig, "result of strings.Builder."+method), true
+	return in.opaqueResults(sig, "result of "+method+" on a string builder"), true
 }
 
 // c19Sprintf formats with Go's fmt when every argument is a concrete string or integer without a
